@@ -199,7 +199,7 @@ SPECS["C04"] = {
                   "dicom_core::PrimitiveValue::calculate_byte_len", "dicom_encoding::encode::{explicit_le, implicit_le, explicit_be} header / item / delimiter / offset table encoders",
                   "dicom_encoding::encode::BasicEncode::encode_primitive (numeric, U8, Tags, Str, Strs arms) and basic::{Little,Big}EndianBasicEncoder"],
     "bounds": "one element through encode_primitive_element per (codec, VR, value variant, item count / text length) instance: U8 x0..3, U16 x1..2, I16/U32/I32/U64/I64 x1..2, Str of 0..3 characters "
-              "in 8 VRs, Strs of 2..3 short strings, Tags x1, Empty; symbolic tag (not FFFE,xxxx, not (0008,0005)), symbolic caller-supplied header length, symbolic content; "
+              "in 8 VRs, Strs of 2..3 short strings, Tags x1, Empty, five concrete non-ASCII Str/Strs values (ISO 8859-1 output shorter than the UTF-8 text); symbolic tag (not FFFE,xxxx, not (0008,0005)), symbolic caller-supplied header length, symbolic content; "
               "token streams of 5 shapes (sequence > item > element; nested sequences; empty item + item + trailing element; encapsulated pixel data then nested sequences; "
               "element + pixel data with offset table and an odd fragment) x {default, NoChange} strategy x {defined, undefined} recorded lengths, symbolic values and (default strategy) symbolic recorded lengths; "
               "all three uncompressed codecs; Date / Time / DateTime elements of 1..2 values built by running the MIR of every public constructor (from_y .. from_date_and_time_with_time_zone, and the crate-private from_hmsf) "
@@ -215,7 +215,7 @@ SPECS["C09"] = {
     "functions": ["dicom_object::meta::FileMetaTable::{update_information_group_length, calculate_information_group_length, into_element_iter}", "dicom_object::meta::dicom_len",
                   "dicom_parser::stateful::encode::StatefulEncoder::encode_primitive_element and the Explicit VR LE header / primitive encoders (as in C04)"],
     "bounds": "quick: 6 presence masks of the optional attributes (none, all, each end, two mixed) with a length pattern chosen by VERIF_SEED; thorough: all 64 masks x 4 length patterns; string lengths 0..5 (odd and even), "
-              "private information 0..3 bytes; characters symbolic",
+              "private information 0..3 bytes; characters symbolic (the last character of every third string may be a pad character, NUL or space)",
     "outside": "reading the group back (FileMetaTable::read_from), attribute operations on the table, FileMetaTableBuilder::build and its defaults, files with and without preamble; longer strings (the arithmetic is per field: "
                "dicom_len rounds to even, the encoder pads)",
     "assumptions": ["the elements go straight from into_element_iter to encode_primitive_element (DataSetWriter::write_sequence / IntoTokens between them are covered by C04's token streams)",
